@@ -2,6 +2,7 @@ package c19
 
 import (
 	"fmt"
+	"strings"
 
 	"github.com/ohler55/slip"
 	"github.com/ohler55/slip/pp"
@@ -19,7 +20,18 @@ var callPool = []string{
 }
 
 func checkCalls(ctx *common.Ctx, r *common.Rng) {
-	for _, src := range callPool {
+	// besides the pool: generated code forms (every special layout), compiled but never evaluated
+	g := &gen{r: r, hist: ctx.Hist}
+	pool := append([]string{}, callPool...)
+	for i := 0; i < 40; i++ {
+		src := g.codeForm(2)
+		// where the pretty printer is known to fail (known findings C19-pp-nested-definition, C19-pp-empty-form)
+		if strings.Contains(src, "(defvar") || strings.Contains(src, "(defparameter") || strings.Contains(src, "(defconstant") || strings.Contains(src, "(defflavor") {
+			src = "(list " + g.codeAtom() + ")"
+		}
+		pool = append(pool, src)
+	}
+	for _, src := range pool {
 		var f slip.Object
 		if perr := safe(func() {
 			code := slip.ReadString(src, slip.NewScope())
